@@ -578,6 +578,29 @@ def configuration_twins(chk, F, rng):
             raise
         chk.violation("twin:int-columns", "fill_cij raises %s: %s for integer-typed columns" % (type(e).__name__, str(e)[:120]),
                       dict(table=ints.to_dict("list")))
+    # (1b) the caller's frame carries row labels of its own (sorted by volume, a filtered subset, V as the index)
+    for tag, lab in (("labels [7, 3]", [7, 3]), ("V as the index", None)):
+        fr = base.copy()
+        if lab is None:
+            fr.index = pandas.Index(fr["V"].tolist(), name="volume")
+        else:
+            fr.index = lab
+        try:
+            with warnings.catch_warnings():
+                warnings.simplefilter("ignore")
+                out = F.fill_cij(fr.copy(), system)
+            d = same(out)
+            if d is None and list(out.index) != list(fr.index):
+                d = "row labels changed to %s" % list(out.index)
+            if d:
+                chk.violation("twin:row-labels", "a frame with row labels of its own (%s) gives a different outcome: %s" % (tag, d), dict(table=fr.to_dict("list")))
+                break
+            chk.side_check("twin frame with %s == default row labels" % tag, True)
+        except BaseException as e:
+            if isinstance(e, (KeyboardInterrupt, SystemExit)):
+                raise
+            chk.violation("twin:row-labels", "fill_cij raises %s: %s for a frame with %s" % (type(e).__name__, str(e)[:120], tag), dict(table=fr.to_dict("list")))
+            break
     # (2) a directory named like the system in the working directory
     cwd = os.getcwd()
     tmp = tempfile.mkdtemp(prefix="c09twin_")
